@@ -46,6 +46,16 @@
 //	   while it associates. For P&T the check decides: deleted ⊆ expected in
 //	   every run, deleted == expected when composition succeeds, and an object
 //	   whose annotation names a template of the current revision is never deleted.
+//
+//	M6 Two references resolving to the same composition-resource-name (a duplicated
+//	   spec.resourceRefs entry, or a second referenced object with the same
+//	   annotation, "name+twin" below). P&T: every reference is judged on its own, so
+//	   nothing whose named template exists may be deleted, and both objects of a
+//	   template-less pair are expected to be deleted. Pipeline: the observer keeps
+//	   one object per name (the last reference); which of two same-named objects
+//	   is collected when the name is undesired is not stated by the property, so
+//	   for that pair only "never deleted while the name is desired" is asserted
+//	   and the pair is left out of the set equation.
 package c03
 
 import (
@@ -139,9 +149,17 @@ type scenario struct {
 	Fixed        map[string]string `json:"fixed,omitempty"` // name -> explicit metadata.name set by the function
 	Perturb      map[string]string `json:"perturb"`         // name -> perturbation applied before the reconcile under test
 	ObserveFault string            `json:"observeFault,omitempty"`
-	Steps        []stepSpec        `json:"steps,omitempty"`     // pipeline mode: the script under test
-	Templates    []string          `json:"templates,omitempty"` // P&T mode: template names of revision 2
-	Seed         int64             `json:"seed"`
+	// Perturbations of spec.resourceRefs itself (M6). DupRef: the reference to this resource appears twice
+	// (the list is atomic, the API server admits duplicates). Twin: a second, distinct object controlled by
+	// the XR and carrying the same composition-resource-name annotation exists and is referenced too.
+	// *Front: the extra reference is put at the front of the list instead of the end.
+	DupRef    string     `json:"dupRef,omitempty"`
+	DupFront  bool       `json:"dupFront,omitempty"`
+	Twin      string     `json:"twin,omitempty"`
+	TwinFront bool       `json:"twinFront,omitempty"`
+	Steps     []stepSpec `json:"steps,omitempty"`     // pipeline mode: the script under test
+	Templates []string   `json:"templates,omitempty"` // P&T mode: template names of revision 2
+	Seed      int64      `json:"seed"`
 }
 
 func (st stepSpec) req(k int) int {
@@ -166,7 +184,12 @@ type verdict struct {
 	Existing   int             // referenced objects that physically exist
 	ExpectDel  map[string]bool
 	CallBudget map[int]int // step -> number of calls the protocol makes (for the boundedness check)
+	WeakPair   string      // pipeline mode: name whose two objects are left out of the set equation (M6)
 }
+
+const twinSuffix = "+twin"
+
+func baseName(n string) string { return strings.TrimSuffix(n, twinSuffix) }
 
 func (sc scenario) observedModel() (obs map[string]bool, existing int) {
 	obs = map[string]bool{}
@@ -177,6 +200,13 @@ func (sc scenario) observedModel() (obs map[string]bool, existing int) {
 			existing++
 		case pForeign:
 			existing++
+		}
+	}
+	if sc.Twin != "" {
+		existing++
+		if sc.Pipeline {
+			// the twin is present and controlled by the XR: the name is observed whatever happened to the original
+			obs[sc.Twin] = true
 		}
 	}
 	return obs, existing
@@ -244,6 +274,10 @@ func interpret(sc scenario) verdict {
 			v.ExpectDel[n] = true
 		}
 	}
+	if sc.Twin != "" {
+		v.WeakPair = sc.Twin
+		delete(v.ExpectDel, sc.Twin)
+	}
 	return v
 }
 
@@ -257,6 +291,9 @@ func interpretPT(sc scenario) verdict {
 		if !v.Desired[n] {
 			v.ExpectDel[n] = true
 		}
+	}
+	if sc.Twin != "" && !v.Desired[sc.Twin] {
+		v.ExpectDel[sc.Twin+twinSuffix] = true
 	}
 	if sc.ObserveFault != "" {
 		v.Fails, v.FailStep, v.Why = true, -1, "observe"
@@ -436,6 +473,8 @@ type world struct {
 	byName map[string]verifsim.Key // objects the XR composed in the good phase (M1)
 	byKey  map[verifsim.Key]string
 	decoys map[verifsim.Key]bool
+	// content of each composed object right after the good phase
+	origContent map[string]verifsim.Obj
 }
 
 func sorted(m map[string]bool) []string {
@@ -458,7 +497,7 @@ func refsOf(xr verifsim.Obj) string {
 func setup(sc scenario) (*world, string) {
 	utilrand.Seed(sc.Seed)
 	env := verifenv.NewXREnv()
-	w := &world{env: env, sc: sc, runner: &scriptRunner{fixed: sc.Fixed}, byName: map[string]verifsim.Key{}, byKey: map[verifsim.Key]string{}, decoys: map[verifsim.Key]bool{}}
+	w := &world{env: env, sc: sc, runner: &scriptRunner{fixed: sc.Fixed}, byName: map[string]verifsim.Key{}, byKey: map[verifsim.Key]string{}, decoys: map[verifsim.Key]bool{}, origContent: map[string]verifsim.Obj{}}
 	env.Runner = w.runner
 	if sc.Pipeline {
 		good := stepSpec{}
@@ -493,6 +532,7 @@ func setup(sc scenario) (*world, string) {
 		}
 		w.byName[n] = k
 		w.byKey[k] = n
+		w.origContent[n] = o
 	}
 	if len(w.byName) != len(sc.Good) {
 		return nil, fmt.Sprintf("setup: the good script composed %v, expected %v (warnings: %v)", w.byName, sc.Good, env.Recorder.Warnings())
@@ -544,6 +584,49 @@ func setup(sc scenario) (*world, string) {
 		}
 		if err != nil {
 			return nil, fmt.Sprintf("setup: perturbation %s of %s: %v", sc.Perturb[n], n, err)
+		}
+	}
+
+	// Perturbations of spec.resourceRefs (M6).
+	var extra, front []any
+	place := func(ref map[string]any, atFront bool) {
+		if atFront {
+			front = append(front, ref)
+		} else {
+			extra = append(extra, ref)
+		}
+	}
+	if n := sc.DupRef; n != "" {
+		k := w.byName[n]
+		place(map[string]any{"apiVersion": "example.org/v1", "kind": k.Kind, "name": k.Name}, sc.DupFront)
+	}
+	if n := sc.Twin; n != "" {
+		k := w.byName[n]
+		orig := w.origContent[n]
+		tw := &unstructured.Unstructured{Object: map[string]any{"apiVersion": "example.org/v1", "kind": k.Kind, "spec": verifsim.DeepCopy(orig)["spec"]}}
+		tw.SetName(k.Name + "-twin")
+		tw.SetAnnotations(verifsim.Annotations(orig))
+		tw.SetLabels(verifsim.Labels(orig))
+		tw.SetOwnerReferences([]metav1.OwnerReference{{APIVersion: "example.org/v1", Kind: "XThing", Name: xrName, UID: types.UID(w.xrUID), Controller: ptr.To(true), BlockOwnerDeletion: ptr.To(true)}})
+		if err := c.Create(ctx, tw); err != nil {
+			return nil, "setup: twin: " + err.Error()
+		}
+		tk := verifsim.Key{Group: "example.org", Kind: k.Kind, Name: tw.GetName()}
+		w.byKey[tk] = n + twinSuffix
+		place(map[string]any{"apiVersion": "example.org/v1", "kind": k.Kind, "name": tw.GetName()}, sc.TwinFront)
+	}
+	if len(extra)+len(front) > 0 {
+		xu := verifsim.U(env.Sim.Get(env.XRKey(xrName)))
+		cur, _ := verifsim.Nested(xu.Object, "spec", "resourceRefs").([]any)
+		refs := append(append(front, cur...), extra...)
+		if err := unstructured.SetNestedSlice(xu.Object, refs, "spec", "resourceRefs"); err != nil {
+			return nil, "setup: refs: " + err.Error()
+		}
+		if err := c.Update(ctx, xu); err != nil {
+			return nil, "setup: refs: " + err.Error()
+		}
+		if got, _ := verifsim.Nested(env.Sim.Get(env.XRKey(xrName)), "spec", "resourceRefs").([]any); len(got) != len(refs) {
+			return nil, fmt.Sprintf("setup: the API server stored %d references, wanted %d", len(got), len(refs))
 		}
 	}
 
@@ -674,7 +757,9 @@ func (w *world) judgeOnce(v verdict) []string {
 			out = append(out, fmt.Sprintf("GC not exact: %s deletes an object the XR had not composed before this reconcile", describe(wr)))
 		default:
 			deleted[name] = true
-			if sc.Perturb[name] == pForeign {
+			isTwin := name != baseName(name)
+			name = baseName(name)
+			if !isTwin && sc.Perturb[name] == pForeign {
 				out = append(out, fmt.Sprintf("%s deletes %q although it is controlled by another owner", describe(wr), name))
 			}
 			if !(sc.Pipeline && v.Fails) && v.Desired[name] {
@@ -706,6 +791,10 @@ func (w *world) judgeOnce(v verdict) []string {
 			out = append(out, fmt.Sprintf("pipeline fails (%s at step %d) but spec.resourceRefs changed:\n  before %s\n  after  %s", v.Why, v.FailStep, b, a))
 		}
 	case !v.Fails:
+		if v.WeakPair != "" {
+			delete(deleted, v.WeakPair)
+			delete(deleted, v.WeakPair+twinSuffix)
+		}
 		if got, want := sorted(deleted), sorted(v.ExpectDel); strings.Join(got, ",") != strings.Join(want, ",") {
 			out = append(out, fmt.Sprintf("composition succeeds but deleted set %v != expected %v (observed-and-collectable %v, final desired %v); writes on composed kinds: %s", got, want, sorted(v.Observed), sorted(v.Desired), strings.Join(mutations, "; ")))
 		}
@@ -794,6 +883,21 @@ func genScenario() *rapid.Generator[scenario] {
 		sc.Good = sorted(goodSet)
 		for _, n := range sc.Good {
 			sc.Perturb[n] = rapid.SampledFrom([]string{pPresent, pPresent, pPresent, pMissing, pTerminating, pUncontrolled, pForeign}).Draw(t, "perturb")
+		}
+		if len(sc.Good) > 0 {
+			switch rapid.IntRange(0, 7).Draw(t, "refsperturb") {
+			case 0, 1:
+				sc.DupRef = rapid.SampledFrom(sc.Good).Draw(t, "dupref")
+				sc.DupFront = rapid.Bool().Draw(t, "dupfront")
+			case 2, 3:
+				sc.Twin = rapid.SampledFrom(sc.Good).Draw(t, "twin")
+				sc.TwinFront = rapid.Bool().Draw(t, "twinfront")
+			case 4:
+				sc.DupRef = rapid.SampledFrom(sc.Good).Draw(t, "dupref")
+				sc.DupFront = rapid.Bool().Draw(t, "dupfront")
+				sc.Twin = rapid.SampledFrom(sc.Good).Draw(t, "twin")
+				sc.TwinFront = rapid.Bool().Draw(t, "twinfront")
+			}
 		}
 		if len(sc.Good) > 0 && rapid.IntRange(0, 7).Draw(t, "observefault") == 0 {
 			sc.ObserveFault = rapid.SampledFrom(sc.Good).Draw(t, "faultref")
@@ -930,6 +1034,25 @@ func classify(rec *verifkit.Recorder, sc scenario, v verdict) {
 	}
 	for _, n := range sc.Good {
 		rec.Label("perturb=" + sc.Perturb[n])
+	}
+	mode := "pt"
+	if sc.Pipeline {
+		mode = "pipeline"
+	}
+	still := func(n string) string {
+		if v.Fails && sc.Pipeline {
+			return "pipeline-fails"
+		}
+		if v.Desired[n] {
+			return "name-still-desired"
+		}
+		return "name-undesired"
+	}
+	if sc.DupRef != "" {
+		rec.Labelf("refs:dup(%s,%s,%s)", mode, sc.Perturb[sc.DupRef], still(sc.DupRef))
+	}
+	if sc.Twin != "" {
+		rec.Labelf("refs:twin(%s,orig-%s,%s)", mode, sc.Perturb[sc.Twin], still(sc.Twin))
 	}
 	nontrivial := (sc.Pipeline && v.Fails && v.FailStep >= 1 && v.Existing >= 1) || (!v.Fails && len(v.ExpectDel) > 0)
 	if nontrivial {
@@ -1068,6 +1191,16 @@ func TestVerifC03Pinned(t *testing.T) {
 		{name: "selector that cannot be fetched", sc: scenario{Pipeline: true, Good: []string{"r0"}, Perturb: all, Steps: []stepSpec{{}, {Reqs: []int{2, reqBad}}}}, fails: true},
 		{name: "P&T template removed and renamed", sc: scenario{Good: []string{"r0", "r1", "r2"}, Perturb: map[string]string{"r0": pPresent, "r1": pUncontrolled, "r2": pPresent}, Templates: []string{"r2", "r4"}}, expectDel: "r0,r1"},
 		{name: "P&T nothing removed", sc: scenario{Good: []string{"r0", "r1"}, Perturb: map[string]string{"r0": pPresent, "r1": pTerminating}, Templates: []string{"r0", "r1", "r5"}}, expectDel: ""},
+		{name: "P&T duplicated reference, template exists", sc: scenario{Good: []string{"r0", "r1"}, Perturb: all, DupRef: "r0", Templates: []string{"r0", "r1"}}, expectDel: ""},
+		{name: "P&T duplicated reference at the front, another template removed", sc: scenario{Good: []string{"r0", "r1"}, Perturb: all, DupRef: "r1", DupFront: true, Templates: []string{"r1"}}, expectDel: "r0"},
+		{name: "P&T duplicated reference, template removed", sc: scenario{Good: []string{"r0", "r1"}, Perturb: map[string]string{"r0": pTerminating, "r1": pPresent}, DupRef: "r0", Templates: []string{"r1"}}, expectDel: "r0"},
+		{name: "P&T two objects with the same extant template name", sc: scenario{Good: []string{"r0", "r1"}, Perturb: all, Twin: "r0", Templates: []string{"r0", "r1"}}, expectDel: ""},
+		{name: "P&T two objects with the same extant template name, twin first", sc: scenario{Good: []string{"r0", "r1"}, Perturb: all, Twin: "r1", TwinFront: true, Templates: []string{"r0", "r1"}}, expectDel: ""},
+		{name: "P&T two objects with the same removed template name", sc: scenario{Good: []string{"r0", "r1"}, Perturb: all, Twin: "r0", Templates: []string{"r1"}}, expectDel: "r0,r0+twin"},
+		{name: "pipeline duplicated reference, still desired", sc: scenario{Pipeline: true, Good: []string{"r0", "r1"}, Perturb: all, DupRef: "r0", Steps: []stepSpec{{Ops: add("r0")}}}, expectDel: "r1"},
+		{name: "pipeline duplicated reference, undesired", sc: scenario{Pipeline: true, Good: []string{"r0", "r1"}, Perturb: all, DupRef: "r1", DupFront: true, Steps: []stepSpec{{Ops: add("r0")}}}, expectDel: "r1"},
+		{name: "pipeline two objects with the same name, still desired", sc: scenario{Pipeline: true, Good: []string{"r0", "r1"}, Perturb: all, Twin: "r0", Steps: []stepSpec{{KeepObserved: true, Ops: []op{{Op: "drop", A: "r1"}}}}}, expectDel: "r1"},
+		{name: "pipeline fatal with duplicated and twin references", sc: scenario{Pipeline: true, Good: []string{"r0", "r1"}, Perturb: all, DupRef: "r0", Twin: "r1", Steps: []stepSpec{{Ops: add("r2")}, {Fail: "fatal"}}}, fails: true},
 		{name: "P&T foreign-controlled without template", sc: scenario{Good: []string{"r0", "r1"}, Perturb: map[string]string{"r0": pForeign, "r1": pPresent}, Templates: []string{"r1"}}, fails: true},
 	}
 	for i, row := range rows {
